@@ -13,6 +13,17 @@ Qed.
 Lemma code_clean_nil : code_clean [] = true.
 Proof. reflexivity. Qed.
 
+Lemma snapshot_nil : snapshot [] = VClean.
+Proof. reflexivity. Qed.
+
+(** Snapshot accepts iff its inspection succeeds and neither check finds anything *)
+Lemma snapshot_clean_iff d :
+  snapshot d = VClean <-> unreadable d = false /\ code_clean d = true.
+Proof.
+  unfold snapshot. destruct (unreadable d); destruct (code_clean d); split; intros H;
+    try discriminate; try (destruct H; discriminate); auto.
+Qed.
+
 (** the RestoreFunc: nothing happens before its DELETE, everything is gone after it *)
 Lemma run_restore_spec rs d k d' rs' :
   run_restore rs d = (k, d', rs') ->
@@ -119,25 +130,64 @@ Proof.
   - exact (not_prop_clean_refused d E).
 Qed.
 
+(** a database that is not empty in the property's sense is never accepted *)
+Lemma not_prop_clean_declined d : prop_clean d = false -> snapshot d <> VClean.
+Proof.
+  intros H Hs. apply snapshot_clean_iff in Hs. destruct Hs as [_ Hc].
+  rewrite (not_prop_clean_refused d H) in Hc. discriminate.
+Qed.
+
+(** nothing of a bookkeeping table is ever parsed by the inspection (its names are hidden) *)
+Lemma bookkeeping_readable d : wf_db d -> prop_clean d = true -> unreadable d = false.
+Proof.
+  intros Hwf H. unfold prop_clean in H. rewrite forallb_forall in H.
+  unfold unreadable. destruct (existsb _ d) eqn:E; [|reflexivity].
+  apply existsb_exists in E. destruct E as [o [Ho Hi]]. apply andb_true_iff in Hi. destruct Hi as [Hi _].
+  specialize (H o Ho). unfold bookkeeping in H. unfold inspected in Hi.
+  destruct (o_kind o) eqn:Ek; try discriminate.
+  - rewrite <- (Hwf o Ho Ek) in Hi. rewrite (reserved_hidden _ H) in Hi. discriminate.
+  - rewrite (reserved_hidden _ H) in Hi. discriminate.
+Qed.
+
+Lemma snapshot_complete d : wf_db d -> prop_clean d = true -> snapshot d = VClean.
+Proof.
+  intros Hwf H. apply snapshot_clean_iff. split.
+  - exact (bookkeeping_readable d Hwf H).
+  - exact (code_clean_complete d Hwf H).
+Qed.
+
+Lemma snapshot_coincide d : wf_db d -> (snapshot d = VClean <-> prop_clean d = true).
+Proof.
+  intros Hwf. split.
+  - intros H. apply snapshot_clean_iff in H. destruct H as [_ H]. exact (code_clean_sound d H).
+  - exact (snapshot_complete d Hwf).
+Qed.
+
 (** ** refusal: nothing happens *)
+Lemma decline_of_declined d : declined (decline_of d) = true.
+Proof. unfold decline_of. destruct (unreadable d); reflexivity. Qed.
+
 Lemma run_session_refused s fs rs d :
-  code_clean d = false -> run_session s fs rs d = (ORefused, d, fs, rs, []).
-Proof. intros H. unfold run_session. rewrite H. reflexivity. Qed.
+  snapshot d <> VClean -> run_session s fs rs d = (decline_of d, d, fs, rs, []).
+Proof.
+  intros H. unfold run_session, decline_of. unfold snapshot in *.
+  destruct (unreadable d); [reflexivity|]. destruct (code_clean d); [congruence|reflexivity].
+Qed.
 
 Lemma run_sessions_refused ss fs rs d :
-  code_clean d = false ->
-  run_sessions ss fs rs d = (match ss with [] => OOk | _ => ORefused end, d, fs, rs, []).
+  snapshot d <> VClean ->
+  run_sessions ss fs rs d = (match ss with [] => OOk | _ => decline_of d end, d, fs, rs, []).
 Proof.
   intros H. destruct ss as [|b ss]; simpl; [reflexivity|].
-  rewrite (run_session_refused b fs rs d H). reflexivity.
+  rewrite (run_session_refused b fs rs d H). unfold decline_of. destruct (unreadable d); reflexivity.
 Qed.
 
 (** ** an accepted session ends with the restore; the database is empty if its DELETE ran *)
 Lemma run_session_accepted s fs rs d :
-  code_clean d = true ->
+  snapshot d = VClean ->
   exists o d' fs' rs' es k,
     run_session s fs rs d = (o, d', fs', rs', es ++ [ERestore k]) /\
-    (2 <= k -> d' = []) /\ o <> ORefused.
+    (2 <= k -> d' = []) /\ declined o = false.
 Proof.
   intros H. unfold run_session. rewrite H.
   destruct (run_body (s_body s) fs rs d) as [[[[r d1] fs1] rs1] es] eqn:E.
@@ -145,32 +195,40 @@ Proof.
   destruct (run_restore_spec _ _ _ _ _ Er) as [_ Hs].
   eexists _, d2, fs1, rs2, es, k. split; [reflexivity|]. split.
   - intros Hk. destruct Hs as [[Hlt _]|[_ Hd]]; [lia|exact Hd].
-  - destruct r; try discriminate. destruct (restore_done k || negb (s_reports s)); discriminate.
+  - destruct r; try reflexivity. destruct (restore_done k || negb (s_reports s)); reflexivity.
 Qed.
 
 Lemma run_sessions_clean ss : forall fs rs d,
-  code_clean d = true -> ss <> [] ->
+  snapshot d = VClean -> ss <> [] ->
   exists o d' fs' rs' es k,
     run_sessions ss fs rs d = (o, d', fs', rs', es ++ [ERestore k]) /\
-    (2 <= k -> d' = []) /\ (o = ORefused -> k < 2).
+    (2 <= k -> d' = []) /\ (declined o = true -> k < 2).
 Proof.
   induction ss as [|b ss IH]; intros fs rs d Hc Hne; [congruence|].
   simpl. destruct (run_session_accepted b fs rs d Hc) as [o [d1 [fs1 [rs1 [es1 [k1 [E [Hk Ho]]]]]]]].
-  rewrite E. destruct o as [| |m|]; try congruence.
+  rewrite E. destruct o as [| |m| |m|]; try (simpl in Ho; discriminate).
   - destruct ss as [|b2 ss2].
     + simpl. exists OOk, d1, fs1, rs1, es1, k1. rewrite app_nil_r.
       split; [reflexivity|]. split; [exact Hk|discriminate].
-    + destruct (code_clean d1) eqn:Hc1.
+    + destruct (snapshot d1) eqn:Hc1.
       * destruct (IH fs1 rs1 d1 Hc1 ltac:(discriminate)) as [o2 [d2 [fs2 [rs2 [es2 [k2 [E2 [Hk2 Ho2]]]]]]]].
         rewrite E2. exists o2, d2, fs2, rs2, ((es1 ++ [ERestore k1]) ++ es2), k2.
         rewrite <- !app_assoc. split; [reflexivity|]. split; assumption.
-      * rewrite (run_sessions_refused (b2 :: ss2) fs1 rs1 d1 Hc1).
-        exists ORefused, d1, fs1, rs1, es1, k1. rewrite app_nil_r.
+      * assert (Hn : snapshot d1 <> VClean) by (rewrite Hc1; discriminate).
+        rewrite (run_sessions_refused (b2 :: ss2) fs1 rs1 d1 Hn).
+        exists (decline_of d1), d1, fs1, rs1, es1, k1. rewrite app_nil_r.
         split; [reflexivity|]. split; [exact Hk|]. intros _.
         destruct (Nat.lt_ge_cases k1 2) as [Hlt|Hge]; [exact Hlt|].
-        rewrite (Hk Hge) in Hc1. discriminate.
+        rewrite (Hk Hge) in Hn. exfalso. apply Hn. reflexivity.
+      * assert (Hn : snapshot d1 <> VClean) by (rewrite Hc1; discriminate).
+        rewrite (run_sessions_refused (b2 :: ss2) fs1 rs1 d1 Hn).
+        exists (decline_of d1), d1, fs1, rs1, es1, k1. rewrite app_nil_r.
+        split; [reflexivity|]. split; [exact Hk|]. intros _.
+        destruct (Nat.lt_ge_cases k1 2) as [Hlt|Hge]; [exact Hlt|].
+        rewrite (Hk Hge) in Hn. exfalso. apply Hn. reflexivity.
   - exists (OFail m), d1, fs1, rs1, es1, k1. split; [reflexivity|]. split; [exact Hk|discriminate].
   - exists ORestoreFail, d1, fs1, rs1, es1, k1. split; [reflexivity|]. split; [exact Hk|discriminate].
+  - exists (OInspectFail m), d1, fs1, rs1, es1, k1. split; [reflexivity|]. split; [exact Hk|discriminate].
 Qed.
 
 (** ** no fault in a restore statement ([rs = []]): every session hands back the empty database *)
@@ -179,48 +237,52 @@ Lemma run_body_rs_nil b : forall fs d r d' fs' rs' es,
 Proof.
   induction b as [|o b IH]; intros fs d r d' fs' rs' es E; simpl in E.
   - inversion E. split; [reflexivity|discriminate].
-  - destruct o as [m s|].
-    + destruct (pop fs) as [fail fs1]. destruct fail.
+  - destruct o as [m s|m badopt|].
+    + destruct (pop_exec fs) as [fail fs1]. destruct fail.
       * inversion E. split; [reflexivity|discriminate].
       * destruct (exec_stmt s d) as [d1|].
         -- destruct (run_body b fs1 [] d1) as [[[[r2 d2] fs2] rs2] es2] eqn:E2.
            inversion E; subst. exact (IH _ _ _ _ _ _ _ E2).
         -- inversion E. split; [reflexivity|discriminate].
+    + destruct (pop_read fs) as [fail fs1]. destruct (fail || inspect_fails badopt d).
+      * inversion E. split; [reflexivity|discriminate].
+      * exact (IH _ _ _ _ _ _ _ E).
     + rewrite run_restore_nofault in E. simpl in E.
       destruct (run_body b fs [] []) as [[[[r2 d2] fs2] rs2] es2] eqn:E2.
       inversion E; subst. exact (IH _ _ _ _ _ _ _ E2).
 Qed.
 
 Lemma run_session_nofault s fs d :
-  code_clean d = true ->
+  snapshot d = VClean ->
   exists o fs' es, run_session s fs [] d = (o, [], fs', [], es ++ [ERestore 4]) /\
-                   o <> ORefused /\ o <> ORestoreFail.
+                   declined o = false /\ o <> ORestoreFail.
 Proof.
   intros H. unfold run_session. rewrite H.
   destruct (run_body (s_body s) fs [] d) as [[[[r d1] fs1] rs1] es] eqn:E.
   destruct (run_body_rs_nil _ _ _ _ _ _ _ _ E) as [-> Hr].
   rewrite run_restore_nofault. eexists _, fs1, es. split; [reflexivity|].
-  destruct r; simpl; try congruence; split; discriminate.
+  destruct r; simpl; try congruence; split; try reflexivity; discriminate.
 Qed.
 
 Lemma run_sessions_nofault ss : forall fs d,
-  code_clean d = true -> ss <> [] ->
+  snapshot d = VClean -> ss <> [] ->
   exists o fs' es, run_sessions ss fs [] d = (o, [], fs', [], es ++ [ERestore 4]) /\
-                   o <> ORefused /\ o <> ORestoreFail.
+                   declined o = false /\ o <> ORestoreFail.
 Proof.
   induction ss as [|b ss IH]; intros fs d Hc Hne; [congruence|].
   simpl. destruct (run_session_nofault b fs d Hc) as [o [fs1 [es1 [E [Ho1 Ho2]]]]].
-  rewrite E. destruct o as [| |m|]; try congruence.
+  rewrite E. destruct o as [| |m| |m|]; try congruence; try (simpl in Ho1; discriminate).
   - destruct ss as [|b2 ss2].
-    + simpl. exists OOk, fs1, es1. rewrite app_nil_r. split; [reflexivity|]. split; discriminate.
-    + destruct (IH fs1 [] code_clean_nil ltac:(discriminate)) as [o2 [fs2 [es2 [E2 Ho]]]].
+    + simpl. exists OOk, fs1, es1. rewrite app_nil_r. split; [reflexivity|]. split; [reflexivity|discriminate].
+    + destruct (IH fs1 [] snapshot_nil ltac:(discriminate)) as [o2 [fs2 [es2 [E2 Ho]]]].
       rewrite E2. exists o2, fs2, ((es1 ++ [ERestore 4]) ++ es2).
       rewrite <- !app_assoc. split; [reflexivity|exact Ho].
-  - exists (OFail m), fs1, es1. split; [reflexivity|]. split; discriminate.
+  - exists (OFail m), fs1, es1. split; [reflexivity|]. split; [reflexivity|discriminate].
+  - exists (OInspectFail m), fs1, es1. split; [reflexivity|]. split; [reflexivity|discriminate].
 Qed.
 
 Lemma run_sessions_handed_back ss fs d o d' fs' rs' es :
-  code_clean d = true -> ss <> [] ->
+  snapshot d = VClean -> ss <> [] ->
   run_sessions ss fs [] d = (o, d', fs', rs', es) -> d' = [].
 Proof.
   intros Hc Hne E.
@@ -234,6 +296,84 @@ Proof.
   destruct ss as [|b ss].
   - simpl. intros E. inversion E. reflexivity.
   - apply run_sessions_handed_back; [reflexivity|discriminate].
+Qed.
+
+(** ** the exit "every statement succeeded, the inspection afterwards failed" *)
+Lemma run_body_inspect_fail b : forall fs rs d m d' fs' rs' es,
+  run_body b fs rs d = (BInspectFail m, d', fs', rs', es) ->
+  forallb ok_event es = true /\ (exists bad, In (OInspect m bad) b).
+Proof.
+  induction b as [|o b IH]; intros fs rs d m d' fs' rs' es E; simpl in E.
+  - inversion E.
+  - destruct o as [m0 s|m0 badopt|].
+    + destruct (pop_exec fs) as [fail fs1]. destruct fail; [inversion E|].
+      destruct (exec_stmt s d) as [d1|]; [|inversion E].
+      destruct (run_body b fs1 rs d1) as [[[[r2 d2] fs2] rs2] es2] eqn:E2.
+      inversion E; subst. destruct (IH _ _ _ _ _ _ _ _ E2) as [Hok [bad Hin]].
+      split; [exact Hok|]. exists bad. right; exact Hin.
+    + destruct (pop_read fs) as [fail fs1]. destruct (fail || inspect_fails badopt d) eqn:Hf.
+      * inversion E; subst. split; [reflexivity|]. exists badopt. left; reflexivity.
+      * destruct (IH _ _ _ _ _ _ _ _ E) as [Hok [bad Hin]].
+        split; [exact Hok|]. exists bad. right; exact Hin.
+    + destruct (run_restore rs d) as [[k d1] rs1] eqn:Er.
+      destruct (restore_done k) eqn:Hd; [|inversion E].
+      destruct (run_body b fs rs1 d1) as [[[[r2 d2] fs2] rs2] es2] eqn:E2.
+      inversion E; subst. destruct (IH _ _ _ _ _ _ _ _ E2) as [Hok [bad Hin]].
+      split; [simpl; rewrite Hd; exact Hok|]. exists bad. right; exact Hin.
+Qed.
+
+(** a session that ends with "inspection failed" was accepted, none of its
+    statements failed, and the RestoreFunc is what ran last *)
+Lemma run_session_inspect_fail s fs rs d m d' fs' rs' es :
+  run_session s fs rs d = (OInspectFail m, d', fs', rs', es) ->
+  snapshot d = VClean /\
+  exists es0 k, es = es0 ++ [ERestore k] /\ forallb ok_event es0 = true /\
+                (exists bad, In (OInspect m bad) (s_body s)) /\
+                (2 <= k -> d' = []) /\ (rs = [] -> k = 4 /\ d' = []).
+Proof.
+  unfold run_session. destruct (snapshot d) eqn:Hs; [|intros E; inversion E|intros E; inversion E].
+  destruct (run_body (s_body s) fs rs d) as [[[[r d1] fs1] rs1] es1] eqn:E1.
+  destruct (run_restore rs1 d1) as [[k d2] rs2] eqn:Er.
+  intros E. split; [reflexivity|].
+  destruct r as [|m1| |m1]; try (inversion E; fail);
+    try (destruct (restore_done k || negb (s_reports s)); inversion E; fail).
+  inversion E; subst. destruct (run_body_inspect_fail _ _ _ _ _ _ _ _ _ E1) as [Hok [bad Hin]].
+  exists es1, k. split; [reflexivity|]. split; [exact Hok|]. split; [exists bad; exact Hin|].
+  destruct (run_restore_spec _ _ _ _ _ Er) as [_ Hsp]. split.
+  - intros Hk. destruct Hsp as [[Hlt _]|[_ Hd]]; [lia|exact Hd].
+  - intros ->. destruct (run_body_rs_nil _ _ _ _ _ _ _ _ E1) as [-> _].
+    rewrite run_restore_nofault in Er. inversion Er. split; reflexivity.
+Qed.
+
+Lemma run_sessions_inspect_fail ss fs rs d m d' fs' rs' es :
+  run_sessions ss fs rs d = (OInspectFail m, d', fs', rs', es) ->
+  exists es0 k, es = es0 ++ [ERestore k] /\ (2 <= k -> d' = []) /\ (rs = [] -> k = 4 /\ d' = []).
+Proof.
+  intros H. destruct ss as [|b ss]; [simpl in H; inversion H|].
+  assert (Hc : snapshot d = VClean).
+  { destruct (snapshot d) eqn:Hs; [reflexivity| |].
+    - assert (Hn : snapshot d <> VClean) by (rewrite Hs; discriminate).
+      rewrite (run_sessions_refused _ fs rs d Hn) in H. unfold decline_of in H.
+      destruct (unreadable d); inversion H.
+    - assert (Hn : snapshot d <> VClean) by (rewrite Hs; discriminate).
+      rewrite (run_sessions_refused _ fs rs d Hn) in H. unfold decline_of in H.
+      destruct (unreadable d); inversion H. }
+  destruct (run_sessions_clean (b :: ss) fs rs d Hc ltac:(discriminate))
+    as [o [d2 [fs2 [rs2 [es2 [k [E [Hk _]]]]]]]].
+  rewrite E in H. inversion H; subst. exists es2, k. split; [reflexivity|]. split; [exact Hk|].
+  intros ->. destruct (run_sessions_nofault (b :: ss) fs d Hc ltac:(discriminate)) as [o3 [fs3 [es3 [E3 _]]]].
+  rewrite E3 in E. inversion E as [[Ho Hd Hfs Hrs Hes]]. apply app_inj_tail in Hes. destruct Hes as [_ Hk4].
+  inversion Hk4. split; reflexivity.
+Qed.
+
+Lemma run_cmd_inspect_fail norm c excl dir from to changes fs rs d m d' es :
+  run_cmd norm c excl dir from to changes fs rs d = (OInspectFail m, d', es) ->
+  exists es0 k, es = es0 ++ [ERestore k] /\ (2 <= k -> d' = []) /\ (rs = [] -> k = 4 /\ d' = []).
+Proof.
+  unfold run_cmd.
+  destruct (run_sessions (sessions_of norm c excl dir from to) fs rs d) as [[[[o1 d1] fs1] rs1] es1] eqn:E.
+  intros H. inversion H; subst. rewrite andb_false_r, app_nil_r.
+  exact (run_sessions_inspect_fail _ _ _ _ _ _ _ _ _ E).
 Qed.
 
 (** ** the database changes only by a successful write or a restore that reached its DELETE *)
@@ -253,13 +393,16 @@ Lemma run_body_untouched b : forall fs rs d r d' fs' rs' es,
 Proof.
   induction b as [|o b IH]; intros fs rs d r d' fs' rs' es E H; simpl in E.
   - inversion E. reflexivity.
-  - destruct o as [m s|].
-    + destruct (pop fs) as [fail fs1]. destruct fail.
+  - destruct o as [m s|m badopt|].
+    + destruct (pop_exec fs) as [fail fs1]. destruct fail.
       * inversion E. reflexivity.
       * destruct (exec_stmt s d) as [d1|].
         -- destruct (run_body b fs1 rs d1) as [[[[r2 d2] fs2] rs2] es2] eqn:E2.
            inversion E; subst. simpl in H. discriminate.
         -- inversion E. reflexivity.
+    + destruct (pop_read fs) as [fail fs1]. destruct (fail || inspect_fails badopt d).
+      * inversion E. reflexivity.
+      * exact (IH _ _ _ _ _ _ _ _ E H).
     + destruct (run_restore rs d) as [[k d1] rs1] eqn:Er.
       destruct (restore_done k) eqn:Hd.
       * destruct (run_body b fs rs1 d1) as [[[[r2 d2] fs2] rs2] es2] eqn:E2.
@@ -272,13 +415,14 @@ Qed.
 Lemma run_session_untouched s fs rs d o d' fs' rs' es :
   run_session s fs rs d = (o, d', fs', rs', es) -> existsb touching es = false -> d' = d.
 Proof.
-  unfold run_session. destruct (code_clean d).
+  unfold run_session. destruct (snapshot d).
   - destruct (run_body (s_body s) fs rs d) as [[[[r d1] fs1] rs1] es1] eqn:E1.
     destruct (run_restore rs1 d1) as [[k d2] rs2] eqn:Er.
     intros E H. inversion E; subst.
     destruct (existsb_app_false _ _ _ H) as [H1 H2]. simpl in H2. apply orb_false_iff in H2.
     destruct H2 as [H2 _].
     rewrite (run_restore_untouched _ _ _ _ _ Er H2). exact (run_body_untouched _ _ _ _ _ _ _ _ _ E1 H1).
+  - intros E _. inversion E. reflexivity.
   - intros E _. inversion E. reflexivity.
 Qed.
 
@@ -295,6 +439,8 @@ Proof.
     + inversion E; subst. exact (run_session_untouched _ _ _ _ _ _ _ _ _ E1 H).
     + inversion E; subst. exact (run_session_untouched _ _ _ _ _ _ _ _ _ E1 H).
     + inversion E; subst. exact (run_session_untouched _ _ _ _ _ _ _ _ _ E1 H).
+    + inversion E; subst. exact (run_session_untouched _ _ _ _ _ _ _ _ _ E1 H).
+    + inversion E; subst. exact (run_session_untouched _ _ _ _ _ _ _ _ _ E1 H).
 Qed.
 
 (** ** sessions never write the directory *)
@@ -303,14 +449,17 @@ Lemma run_body_no_dirwrite b : forall fs rs d r d' fs' rs' es,
 Proof.
   induction b as [|o b IH]; intros fs rs d r d' fs' rs' es E; simpl in E.
   - inversion E. intros [].
-  - destruct o as [m s|].
-    + destruct (pop fs) as [fail fs1]. destruct fail.
+  - destruct o as [m s|m badopt|].
+    + destruct (pop_exec fs) as [fail fs1]. destruct fail.
       * inversion E. simpl. intros [H|[]]. discriminate.
       * destruct (exec_stmt s d) as [d1|].
         -- destruct (run_body b fs1 rs d1) as [[[[r2 d2] fs2] rs2] es2] eqn:E2.
            inversion E; subst. simpl. intros [H|H]; [discriminate|].
            exact (IH _ _ _ _ _ _ _ _ E2 H).
         -- inversion E. simpl. intros [H|[]]. discriminate.
+    + destruct (pop_read fs) as [fail fs1]. destruct (fail || inspect_fails badopt d).
+      * inversion E. intros [].
+      * exact (IH _ _ _ _ _ _ _ _ E).
     + destruct (run_restore rs d) as [[k d1] rs1]. destruct (restore_done k).
       * destruct (run_body b fs rs1 d1) as [[[[r2 d2] fs2] rs2] es2] eqn:E2.
         inversion E; subst. simpl. intros [H|H]; [discriminate|].
@@ -321,13 +470,14 @@ Qed.
 Lemma run_session_no_dirwrite s fs rs d o d' fs' rs' es :
   run_session s fs rs d = (o, d', fs', rs', es) -> ~ In EDirWrite es.
 Proof.
-  unfold run_session. destruct (code_clean d).
+  unfold run_session. destruct (snapshot d).
   - destruct (run_body (s_body s) fs rs d) as [[[[r d2] fs2] rs2] es2] eqn:E2.
     destruct (run_restore rs2 d2) as [[k d3] rs3].
     intros E. inversion E; subst.
     intros H. apply in_app_or in H. destruct H as [H|[H|[]]].
     + exact (run_body_no_dirwrite _ _ _ _ _ _ _ _ _ E2 H).
     + discriminate.
+  - intros E. inversion E. intros [].
   - intros E. inversion E. intros [].
 Qed.
 
@@ -345,6 +495,8 @@ Proof.
     + inversion E; subst. exact H1.
     + inversion E; subst. exact H1.
     + inversion E; subst. exact H1.
+    + inversion E; subst. exact H1.
+    + inversion E; subst. exact H1.
 Qed.
 
 (** ** the commands *)
@@ -353,7 +505,7 @@ Definition replays (s : source) : Prop :=
 Definition normalizes (norm : normalizer) (s : source) : Prop :=
   norm <> NoNorm /\ exists ts, s = SrcHCL ts.
 
-Lemma eager_nonempty s : replays s -> eager s <> [].
+Lemma eager_nonempty excl s : replays s -> eager excl s <> [].
 Proof. intros [[ss ->]|[dd ->]]; discriminate. Qed.
 
 Lemma deferred_nonempty norm s : normalizes norm s -> deferred norm s <> [].
@@ -364,64 +516,64 @@ Proof. destruct l1; [congruence|discriminate]. Qed.
 Lemma app_nonempty_r {A} (l1 l2 : list A) : l2 <> [] -> l1 ++ l2 <> [].
 Proof. destruct l1; [auto|discriminate]. Qed.
 
-Lemma sessions_of_nonempty norm c dir from to :
+Lemma sessions_of_nonempty norm c excl dir from to :
   (* every command opens a session unless none of its sources needs the dev database *)
   match c with
   | CValidate | CLint _ | CDiff | CCheckpoint => True
   | CSchemaDiff => replays from \/ replays to \/ normalizes norm from \/ normalizes norm to
   | CSchemaApply => replays to \/ normalizes norm to
   | CSchemaInspect => replays from \/ normalizes norm from
-  end -> sessions_of norm c dir from to <> [].
+  end -> sessions_of norm c excl dir from to <> [].
 Proof.
   destruct c; simpl; intros H; try discriminate.
   - apply app_nonempty_r. discriminate.
   - destruct H as [H|[H|[H|H]]].
-    + apply app_nonempty_l. exact (eager_nonempty _ H).
-    + apply app_nonempty_r, app_nonempty_l. exact (eager_nonempty _ H).
+    + apply app_nonempty_l. exact (eager_nonempty _ _ H).
+    + apply app_nonempty_r, app_nonempty_l. exact (eager_nonempty _ _ H).
     + apply app_nonempty_r, app_nonempty_r, app_nonempty_l. exact (deferred_nonempty _ _ H).
     + apply app_nonempty_r, app_nonempty_r, app_nonempty_r. exact (deferred_nonempty _ _ H).
   - destruct H as [H|H].
-    + apply app_nonempty_l. exact (eager_nonempty _ H).
+    + apply app_nonempty_l. exact (eager_nonempty _ _ H).
     + apply app_nonempty_r. exact (deferred_nonempty _ _ H).
   - destruct H as [H|H].
-    + apply app_nonempty_l. exact (eager_nonempty _ H).
+    + apply app_nonempty_l. exact (eager_nonempty _ _ H).
     + apply app_nonempty_r. exact (deferred_nonempty _ _ H).
 Qed.
 
-Lemma run_cmd_refused norm c dir from to changes fs rs d :
-  code_clean d = false ->
-  sessions_of norm c dir from to <> [] ->
-  run_cmd norm c dir from to changes fs rs d = (ORefused, d, []).
+Lemma run_cmd_refused norm c excl dir from to changes fs rs d :
+  snapshot d <> VClean ->
+  sessions_of norm c excl dir from to <> [] ->
+  run_cmd norm c excl dir from to changes fs rs d = (decline_of d, d, []).
 Proof.
   intros H Hne. unfold run_cmd. rewrite (run_sessions_refused _ fs rs d H).
-  destruct (sessions_of norm c dir from to); [congruence|].
-  simpl. rewrite andb_false_r. reflexivity.
+  destruct (sessions_of norm c excl dir from to); [congruence|].
+  unfold decline_of. destruct (unreadable d); simpl; rewrite andb_false_r; reflexivity.
 Qed.
 
-Lemma run_cmd_handed_back norm c dir from to changes fs d o d' es :
-  code_clean d = true ->
-  sessions_of norm c dir from to <> [] ->
-  run_cmd norm c dir from to changes fs [] d = (o, d', es) -> d' = [].
+Lemma run_cmd_handed_back norm c excl dir from to changes fs d o d' es :
+  snapshot d = VClean ->
+  sessions_of norm c excl dir from to <> [] ->
+  run_cmd norm c excl dir from to changes fs [] d = (o, d', es) -> d' = [].
 Proof.
   unfold run_cmd. intros Hc Hne.
-  destruct (run_sessions (sessions_of norm c dir from to) fs [] d) as [[[[o1 d1] fs1] rs1] es1] eqn:E.
+  destruct (run_sessions (sessions_of norm c excl dir from to) fs [] d) as [[[[o1 d1] fs1] rs1] es1] eqn:E.
   intros H. inversion H; subst. exact (run_sessions_handed_back _ _ _ _ _ _ _ _ Hc Hne E).
 Qed.
 
-Lemma run_cmd_from_empty norm c dir from to changes fs o d' es :
-  run_cmd norm c dir from to changes fs [] [] = (o, d', es) -> d' = [].
+Lemma run_cmd_from_empty norm c excl dir from to changes fs o d' es :
+  run_cmd norm c excl dir from to changes fs [] [] = (o, d', es) -> d' = [].
 Proof.
   unfold run_cmd.
-  destruct (run_sessions (sessions_of norm c dir from to) fs [] []) as [[[[o1 d1] fs1] rs1] es1] eqn:E.
+  destruct (run_sessions (sessions_of norm c excl dir from to) fs [] []) as [[[[o1 d1] fs1] rs1] es1] eqn:E.
   intros H. inversion H; subst. exact (run_sessions_from_empty _ _ _ _ _ _ _ E).
 Qed.
 
-Lemma run_cmd_restore_last norm c dir from to changes fs rs d :
-  code_clean d = true ->
-  sessions_of norm c dir from to <> [] ->
+Lemma run_cmd_restore_last norm c excl dir from to changes fs rs d :
+  snapshot d = VClean ->
+  sessions_of norm c excl dir from to <> [] ->
   exists o d' es k tail,
-    run_cmd norm c dir from to changes fs rs d = (o, d', es ++ [ERestore k] ++ tail) /\
-    (2 <= k -> d' = []) /\ (o = ORefused -> k < 2) /\ (tail = [] \/ tail = [EDirWrite]).
+    run_cmd norm c excl dir from to changes fs rs d = (o, d', es ++ [ERestore k] ++ tail) /\
+    (2 <= k -> d' = []) /\ (declined o = true -> k < 2) /\ (tail = [] \/ tail = [EDirWrite]).
 Proof.
   intros Hc Hne. unfold run_cmd.
   destruct (run_sessions_clean _ fs rs d Hc Hne) as [o [d' [fs' [rs' [es [k [E [Hk Ho]]]]]]]].
@@ -430,24 +582,24 @@ Proof.
   destruct (writes_dir c && is_ok o && changes); [right|left]; reflexivity.
 Qed.
 
-Lemma run_cmd_untouched norm c dir from to changes fs rs d o d' es :
-  run_cmd norm c dir from to changes fs rs d = (o, d', es) ->
+Lemma run_cmd_untouched norm c excl dir from to changes fs rs d o d' es :
+  run_cmd norm c excl dir from to changes fs rs d = (o, d', es) ->
   existsb touching es = false -> d' = d.
 Proof.
   unfold run_cmd.
-  destruct (run_sessions (sessions_of norm c dir from to) fs rs d) as [[[[o1 d1] fs1] rs1] es1] eqn:E.
+  destruct (run_sessions (sessions_of norm c excl dir from to) fs rs d) as [[[[o1 d1] fs1] rs1] es1] eqn:E.
   intros H Ht. inversion H; subst. destruct (existsb_app_false _ _ _ Ht) as [H1 _].
   exact (run_sessions_untouched _ _ _ _ _ _ _ _ _ E H1).
 Qed.
 
-Lemma run_cmd_dirwrite norm c dir from to changes fs rs d o d' es :
-  run_cmd norm c dir from to changes fs rs d = (o, d', es) ->
+Lemma run_cmd_dirwrite norm c excl dir from to changes fs rs d o d' es :
+  run_cmd norm c excl dir from to changes fs rs d = (o, d', es) ->
   (exists es0, ~ In EDirWrite es0 /\
      ((es = es0 /\ (writes_dir c = false \/ o <> OOk \/ changes = false)) \/
       (es = es0 ++ [EDirWrite] /\ writes_dir c = true /\ o = OOk /\ changes = true))).
 Proof.
   unfold run_cmd.
-  destruct (run_sessions (sessions_of norm c dir from to) fs rs d) as [[[[o1 d1] fs1] rs1] es1] eqn:E.
+  destruct (run_sessions (sessions_of norm c excl dir from to) fs rs d) as [[[[o1 d1] fs1] rs1] es1] eqn:E.
   intros H. inversion H; subst. exists es1.
   split; [exact (run_sessions_no_dirwrite _ _ _ _ _ _ _ _ _ E)|].
   destruct (writes_dir c) eqn:Hw; simpl; [|left; split; [apply app_nil_r|left; reflexivity]].
@@ -457,11 +609,11 @@ Proof.
   - left. split; [apply app_nil_r|right; right; reflexivity].
 Qed.
 
-Lemma run_cmd_dir_readonly norm c dir from to changes fs rs d o d' es :
-  run_cmd norm c dir from to changes fs rs d = (o, d', es) ->
+Lemma run_cmd_dir_readonly norm c excl dir from to changes fs rs d o d' es :
+  run_cmd norm c excl dir from to changes fs rs d = (o, d', es) ->
   (writes_dir c = false \/ o <> OOk \/ changes = false) -> ~ In EDirWrite es.
 Proof.
-  intros E Hc. destruct (run_cmd_dirwrite _ _ _ _ _ _ _ _ _ _ _ _ E) as [es0 [H0 [[-> _]|[_ [Hw [Ho Hch]]]]]].
+  intros E Hc. destruct (run_cmd_dirwrite _ _ _ _ _ _ _ _ _ _ _ _ _ E) as [es0 [H0 [[-> _]|[_ [Hw [Ho Hch]]]]]].
   - exact H0.
   - destruct Hc as [Hc|[Hc|Hc]]; congruence.
 Qed.
